@@ -91,6 +91,7 @@ VERIFICATION_MSGS = (
     'loop invariant not satisfied', 'possible arithmetic underflow/overflow', 'possible division by zero',
     'decreases not satisfied', 'index out of bounds', 'unreachable', 'recommendation not met', 'loop ensures not satisfied',
     'possible bit shift', 'assertion not satisfied', 'failed', 'could not prove termination', 'rlimit', 'resource limit',
+    'requires not satisfied',   # the hypothesis list of an `assert ... by(nonlinear_arith) requires ...` inside a proof block
 )
 
 
@@ -119,7 +120,7 @@ def classify(diags, gen):
         elif 'postcondition' in m: d.kind = 'ensures'
         elif 'invariant' in m: d.kind = 'invariant'
         elif 'precondition' in m: d.kind = 'precondition'
-        elif 'assertion' in m: d.kind = 'assert'
+        elif 'assertion' in m or 'requires not satisfied' in m: d.kind = 'assert'
         elif 'overflow' in m: d.kind = 'overflow'
         elif 'decreases' in m or 'termination' in m: d.kind = 'decreases'
         else: d.kind = 'other'
